@@ -307,11 +307,29 @@ def expand_hostparent(path, res, case_spec):
     return path.replace("@HOSTPARENT", "/".join(reversed(names)))
 
 
+def may_not_search(snap, euids):
+    """directories a caller with effective uid `euid` (effective gid 0) may not search"""
+    euids = {e for e in euids if e is not None}
+    if len(euids) != 1 or euids == {0}:
+        return []
+    euid = euids.pop()
+    out = []
+    for i in snap["inodes"]:
+        if i.get("k") != "dir":
+            continue
+        mode, uid = i.get("mode", 0o755), i.get("uid", 0)
+        x = (mode & 0o100) if uid == euid else ((mode & 0o010) if uid == 0 else (mode & 0o001))
+        if not x:
+            out.append(i["id"])
+    return sorted(out)
+
+
 def project_lookup(res, case_spec, scratch_prefix=None):
     """relevant syscalls of an emulated resolve -> TraceLookup events"""
     cid = str(res.get("id"))
     calls = case_spec.get("calls", [])
     out = [snap_event("init", cid, res["init"])]
+    out[0]["denied"] = may_not_search(res["init"], {c.get("euid") for c in case_spec.get("calls", [])})
     results = (res.get("out") or [{}])[0].get("results") or []
     cur = None
     for e in res.get("events", []):
